@@ -19,7 +19,7 @@ RUN_TIMEOUT = 300
 NO_SHRINK = {'dim', 'method', 'kernel', 'narr', 'periodic', 'via'}
 METHODS = ['shepard', 'sph', 'splash', 'splash_norm', 'order1']
 KERNELS_Q = ['CubicSpline']
-KERNELS_T = ['CubicSpline', 'Gaussian', 'QuinticSpline', 'WendlandQuintic']
+KERNELS_T = ['CubicSpline', 'Gaussian', 'QuinticSpline', 'WendlandQuintic', 'WendlandQuinticC2_1D']
 
 PROPS = {
     'C14': dict(
@@ -87,6 +87,8 @@ def gen(t, prop, tier):
     dim = t.wchoice([(1, 3), (2, 5), (3, 2)])
     method = t.choice(METHODS)
     kernel = t.choice(KERNELS_Q if tier == 'quick' else KERNELS_T)
+    if kernel == 'WendlandQuintic' and dim == 1:
+        kernel = 'WendlandQuinticC2_1D'     # the 2-D/3-D class refuses dim 1
     narr = t.wchoice([(1, 3), (2, 4), (3, 2)])
     L = t.choice([1.0, 2.0, 0.5])
     nper = {1: t.choice([6, 10, 20]), 2: t.choice([4, 5, 7]), 3: t.choice([3, 4])}[dim]
@@ -283,6 +285,8 @@ def execute(sc, prop):
     tot = sum(ext)
     if tot <= 0 or sum(1 for e in ext if e / tot > 1e-3) != dim:
         raise InvalidScenario('source extent does not span the dimension')
+    if (kname == 'WendlandQuintic') == (dim == 1) and kname.startswith('Wendland'):
+        raise InvalidScenario('kernel class does not support this dimension')
     kern = getattr(K, kname)(dim=dim)
     per = sc.get('periodic')
     dm = None
